@@ -60,6 +60,9 @@ class C08(core.Check):
                     for indent in ((2, 0, 1) if th else (2,)):
                         out.append({"kind": kind, "ft": ft, "inline": inline, "kwonly": kwonly, "indent": indent,
                                     "edd": False, "ww": True})
+        out.append({"kind": "argparse", "edd": False, "ww": True, "wrapdesc": True})
+        out.append({"kind": "function", "ft": "static", "inline": True, "kwonly": True, "indent": 2, "edd": False, "ww": True, "septab": True})
+        out.append({"kind": "method", "ft": "self", "inline": False, "kwonly": False, "indent": 2, "edd": False, "ww": True, "septab": True})
         if th:
             out.append({"kind": "method", "ft": "cls", "inline": True, "kwonly": True, "indent": 2, "edd": False, "ww": True})
             out.append({"kind": "function", "ft": "static", "inline": True, "kwonly": True, "indent": 2, "edd": True, "ww": True})
@@ -72,7 +75,7 @@ class C08(core.Check):
         keep = []
         seen = set()
         for o in full:  # quick, atom-exhaustive part: one option set per kind plus the second default-text setting
-            key = (o["kind"], o.get("edd"), o.get("inline"), o.get("kwonly"))
+            key = (o["kind"], o.get("edd"), o.get("inline"), o.get("kwonly"), o.get("septab"), o.get("wrapdesc"))
             if o["kind"] in rt.DOC_KINDS and not (o["edd"] or o["kind"] == "rest"):
                 continue
             if o["kind"] in ("function", "method") and o["inline"] != o["kwonly"]:
